@@ -167,6 +167,23 @@ func c20RandomTree(r *vhRng, k int) []int {
 }
 
 func c20RandomWeights(r *vhRng) []int {
+	if r.Chance(1, 12) {
+		// many voters: bit positions beyond the first 64-bit word of the bitfields; four heavy voters
+		// at random positions (often around the word boundary) carry a supermajority between them
+		m := r.Pick(31, 32, 33, 34, 40, 63, 64, 65, 70)
+		ws := make([]int, m)
+		for i := range ws {
+			ws[i] = 1
+		}
+		for i := 0; i < 4; i++ {
+			pos := r.Intn(m)
+			if r.Bool() {
+				pos = (30 + r.Intn(5)) % m
+			}
+			ws[pos] = 25 + r.Intn(10)
+		}
+		return ws
+	}
 	m := 1 + r.Intn(7)
 	ws := make([]int, m)
 	mode := r.Intn(5)
@@ -229,6 +246,9 @@ func c20Random(r *vhRng) string {
 	var ops []string
 	for v := 0; v < m; v++ {
 		for ph := 0; ph < 2; ph++ {
+			if m > 20 && ws[v] == 1 && !r.Chance(1, 6) {
+				continue
+			}
 			if !r.Chance(pVote, 10) {
 				continue
 			}
